@@ -31,7 +31,7 @@ func init() { core.Register(check{}) }
 func (check) ID() string    { return "C14" }
 func (check) Level() string { return "exploration" }
 func (check) Rule() string {
-	return "bounded-exhaustive, simplest first. (A) every generated IDL program (scalars, containers, typedef chains, enums, unions/exceptions, self/mutual recursion, nested includes with equal struct names, same-file / cross-file / two-level service inheritance, multi-service, oneway/void/throws, default literals of every scalar kind incl. const/enum references, aliases, thrift/base in three declaration orders, 10 name families) x every combination of MapFieldWay(3) x ParseServiceMode(3) x ServiceName(none, each declared, undeclared) x ParseFunctionMode(3) x ParseEnumAsInt64 x SetOptionalBitmap x UseDefaultValue x EnableThriftBase x ApiBodyFastPath: the whole descriptor graph compared with the object graph. (B) for every struct descriptor reachable in every program: FieldById for every id 0..65535 (blocks of 4096); FieldByKey for the whole key alphabet (declared, every proper prefix, one-byte extensions, every single-position substitution over 12 bytes incl. 0x00/0x7f/0x80/0xff/2-byte rune and the neighbours of the declared byte, deletions, empty, 1023..4097 bytes, constructed full-hash DJB collisions, same-slot collisions, one key per hash slot, hash-0 keys) x MapFieldWay(3); for the name families the same keys (valid UTF-8 ones) through native j2t with DisallowUnknownField on and off in each of avx2/avx/sse. A case is non-trivial if it is distinct by (program, options) resp. (struct, map way, flavour, key) resp. (struct, id block). Later additions: same-name base services, api.body structs below containers, result-field keys, several methods over one request / response / exception type with different ids and names. Round 9: hash-mode family with a full 32-bit collision and nothing that forces the trie; every bit of Requires() belongs to an exposed field. Round 10: one constant as the default of fields of several types."
+	return "bounded-exhaustive, simplest first. (A) every generated IDL program (scalars, containers, typedef chains, enums, unions/exceptions, self/mutual recursion, nested includes with equal struct names, same-file / cross-file / two-level service inheritance, multi-service, oneway/void/throws, default literals of every scalar kind incl. const/enum references, aliases, thrift/base in three declaration orders, 10 name families) x every combination of MapFieldWay(3) x ParseServiceMode(3) x ServiceName(none, each declared, undeclared) x ParseFunctionMode(3) x ParseEnumAsInt64 x SetOptionalBitmap x UseDefaultValue x EnableThriftBase x ApiBodyFastPath: the whole descriptor graph compared with the object graph. (B) for every struct descriptor reachable in every program: FieldById for every id 0..65535 (blocks of 4096); FieldByKey for the whole key alphabet (declared, every proper prefix, one-byte extensions, every single-position substitution over 12 bytes incl. 0x00/0x7f/0x80/0xff/2-byte rune and the neighbours of the declared byte, deletions, empty, 1023..4097 bytes, constructed full-hash DJB collisions, same-slot collisions, one key per hash slot, hash-0 keys) x MapFieldWay(3); for the name families the same keys (valid UTF-8 ones) through native j2t with DisallowUnknownField on and off in each of avx2/avx/sse. A case is non-trivial if it is distinct by (program, options) resp. (struct, map way, flavour, key) resp. (struct, id block). Later additions: same-name base services, api.body structs below containers, result-field keys, several methods over one request / response / exception type with different ids and names. Round 9: hash-mode family with a full 32-bit collision and nothing that forces the trie; every bit of Requires() belongs to an exposed field. Round 10: one constant as the default of fields of several types. Round 11: inheritance chain over two included files with a same-named struct nested in both."
 }
 
 func (check) Assumptions() []string {
